@@ -60,8 +60,21 @@ func refMerkle(items [][]byte) []byte {
 	return h256(buf)
 }
 
-// bodyCommitment computes the reference commitment of the body of a block tree.
+// bodyCommitment computes the reference commitment of the body of a built or
+// edited block tree (segment bytes = node.Encode()).
 func bodyCommitment(typ uint, root *xcbor.Node) commitment {
+	return bodyCommitmentOf(typ, root, nil)
+}
+
+// bodyCommitmentOf: when src is non-nil, root must be a parse of src and the
+// segment bytes are taken verbatim from src (no re-encoding involved).
+func bodyCommitmentOf(typ uint, root *xcbor.Node, src []byte) commitment {
+	enc := func(n *xcbor.Node) []byte {
+		if src != nil {
+			return src[n.Start:n.End]
+		}
+		return n.Encode()
+	}
 	var c commitment
 	bad := func(s string) commitment { c.Undefind = s; return c }
 	if root.Kind != xcbor.Array {
@@ -72,12 +85,12 @@ func bodyCommitment(typ uint, root *xcbor.Node) commitment {
 		if len(root.Items) < 2 {
 			return bad("ebb: fewer than 2 items")
 		}
-		c.Hash = h256(root.Items[1].Encode())
+		c.Hash = h256(enc(root.Items[1]))
 	case layDijkstra:
 		if len(root.Items) != 2 {
 			return bad("dijkstra: not 2 items")
 		}
-		c.Hash = h256(root.Items[1].Encode())
+		c.Hash = h256(enc(root.Items[1]))
 	case layShelley:
 		n := segmentCount(typ)
 		if len(root.Items) != n+1 {
@@ -85,7 +98,7 @@ func bodyCommitment(typ uint, root *xcbor.Node) commitment {
 		}
 		var cat []byte
 		for i := 1; i <= n; i++ {
-			cat = append(cat, h256(root.Items[i].Encode())...)
+			cat = append(cat, h256(enc(root.Items[i]))...)
 		}
 		c.Hash = h256(cat)
 	case layByron:
@@ -104,15 +117,15 @@ func bodyCommitment(typ uint, root *xcbor.Node) commitment {
 			if pair.Kind != xcbor.Array || len(pair.Items) != 2 {
 				return bad(fmt.Sprintf("byron: tx %d is not a [tx, witnesses] pair", i))
 			}
-			leaves = append(leaves, pair.Items[0].Encode())
-			wl = append(wl, pair.Items[1].Encode()...)
+			leaves = append(leaves, enc(pair.Items[0]))
+			wl = append(wl, enc(pair.Items[1])...)
 		}
 		wl = append(wl, 0xff)
 		c.TxCount = uint64(len(pay.Items))
 		c.Merkle = refMerkle(leaves)
 		c.WitHash = h256(wl)
-		c.DlgHash = h256(body.Items[2].Encode())
-		c.UpdHash = h256(body.Items[3].Encode())
+		c.DlgHash = h256(enc(body.Items[2]))
+		c.UpdHash = h256(enc(body.Items[3]))
 	}
 	return c
 }
